@@ -1,12 +1,14 @@
 //! `hv_tick <mode> --seed N --cases N --out DIR --tier quick|thorough [--replay FILE]`
 //! modes: c27 (wake protocol of the runner), c24 (ticks / defer_tick / run-until-idle),
 //!        c26 (loop blocks), c25 (references)
+mod c24;
 mod c27;
 
 fn main() {
     let args = hv_common::Args::parse();
     match args.mode.as_str() {
         "c27" => c27::main(&args),
+        "c24" => c24::main(&args),
         m => {
             eprintln!("unknown mode {m}");
             std::process::exit(2)
